@@ -59,9 +59,9 @@ class Float(float, AnyAtomicType):
                 pass
 
         _value = super().__new__(cls, value)
-        if _value > 3.4028235E38:
+        if _value >= 3.4028235677973366E38:  # 2**128 - 2**103: rounds to infinity in binary32
             return super().__new__(cls, 'INF')
-        elif _value < -3.4028235E38:
+        elif _value <= -3.4028235677973366E38:
             return super().__new__(cls, '-INF')
         elif -7.006492321624085e-46 <= _value <= 7.006492321624085e-46:  # 2**-150: rounds to zero
             return super().__new__(cls, -0.0 if str(_value).startswith('-') else 0.0)
